@@ -53,17 +53,36 @@ EXEMPT = {
     ("block_diagonalization", "_sympy_to_BlockSeries.derivative_eval", "previous_index[symbol_number]"): "list(index) copy of the index tuple",
 }
 
-# closures that write captured state: (module, closure, captured name) -> reason (T7)
+# closures that write captured state: (module, closure, binding of the captured name in the enclosing function, kind of
+# write) -> reason (T7).  The captured variable is identified by how the enclosing function binds it, not by its name.
 CLOSURE_STATE = {
-    ("block_diagonalization", "solve_sylvester_diagonal.solve_sylvester", "index_checked"):
+    ("block_diagonalization", "solve_sylvester_diagonal.solve_sylvester", "set()", "method .add()"):
         "monotone memo of block pairs that PASSED the shared-eigenvalue check; added only after the check (E7.shared)",
-    ("second_quantization", "solve_sylvester_2nd_quant.solve_sylvester", "eigs"):
+    ("second_quantization", "solve_sylvester_2nd_quant.solve_sylvester", "<parameter>", "item store"):
         "idempotent fill-in of an empty block's eigenvalue list with zeros, on a package-owned tuple of lists",
-    ("algorithm_parsing", "series_computation.del_", "series"):
+    ("algorithm_parsing", "series_computation.del_", "<parameter>", "method .pop()"):
         "deletion of recomputable intermediate terms via BlockSeries.pop (values are pure functions of the input)",
-    ("algorithm_parsing", "series_computation.del_", "linear_operator_series"):
+    ("algorithm_parsing", "series_computation.del_", "{_v0: linear_operator_wrapped(_v1) for _v0, _v1 in series.items()}", "method .pop()"):
         "deletion of recomputable intermediate terms via BlockSeries.pop",
 }
+
+
+def captured_binding(func, name: str) -> str:
+    """How the nearest enclosing function binds `name`: '<parameter>', the text of its single assignment, or '<other>'."""
+    from .resolve import rtext
+    p = getattr(func, "_parent", None)
+    while p is not None:
+        if isinstance(p, ast.FunctionDef):
+            a = p.args
+            if name in {x.arg for x in [*a.posonlyargs, *a.args, *a.kwonlyargs]}:
+                return "<parameter>"
+            vals = [n for n in own_nodes(p) if isinstance(n, ast.Assign) and any(isinstance(t, ast.Name) and t.id == name for t in n.targets)]
+            if len(vals) == 1:
+                return rtext(vals[0].value, {})
+            if vals:
+                return "<other>"
+        p = getattr(p, "_parent", None)
+    return "<other>"
 
 
 def qualname(func) -> str:
@@ -475,8 +494,8 @@ def rule_no_inplace_mutation(rep: Report, repo: Repo):
             if (fa.mod, fa.q, txt) in EXEMPT:
                 rep.ok(RULE, inst + " (exempt)", EXEMPT[(fa.mod, fa.q, txt)], where)
                 continue
-            if (fa.mod, fa.q, base) in CLOSURE_STATE:
-                rep.ok(RULE, inst + " (listed closure state)", CLOSURE_STATE[(fa.mod, fa.q, base)], where)
+            if base is not None and (fa.mod, fa.q, captured_binding(fa.func, base), kind) in CLOSURE_STATE:
+                rep.ok(RULE, inst + " (listed closure state)", CLOSURE_STATE[(fa.mod, fa.q, captured_binding(fa.func, base), kind)], where)
                 continue
             if st == FRESH:
                 rep.ok(RULE, inst + " mutates a value created in this function", "target is FRESH on every path", where)
@@ -621,10 +640,11 @@ def rule_closure_state(rep: Report, repo: Repo):
                 continue
             if kind.startswith("attribute store"):
                 continue
-            found.add((fa.mod, fa.q, base))
-            listed = (fa.mod, fa.q, base) in CLOSURE_STATE
+            ckey = (fa.mod, fa.q, captured_binding(fa.func, base), kind)
+            found.add(ckey)
+            listed = ckey in CLOSURE_STATE
             if listed:
-                rep.ok(R, f"{fa.mod}::{fa.q} writes captured `{base}` ({kind})", CLOSURE_STATE[(fa.mod, fa.q, base)], repo.loc(fa.mod, node))
+                rep.ok(R, f"{fa.mod}::{fa.q} writes captured `{base}` ({kind})", CLOSURE_STATE[ckey], repo.loc(fa.mod, node))
             elif (fa.mod, fa.q, txt) in EXEMPT:
                 rep.ok(R, f"{fa.mod}::{fa.q} writes `{txt}` (exempt)", EXEMPT[(fa.mod, fa.q, txt)], repo.loc(fa.mod, node))
             else:
